@@ -1,5 +1,6 @@
 (* Helpers shared by the generated cases files. *)
 From Coq Require Export List NArith ZArith Bool.
+From Coq Require String Ascii.
 Export ListNotations.
 
 Fixpoint mismatches_aux {A} (chk : A -> bool) (i : nat) (l : list A) : list nat :=
@@ -28,3 +29,36 @@ Definition opt_eqb {A} (eqb : A -> A -> bool) (a b : option A) : bool :=
 (* 61-bit polynomial digest of a list of small codes *)
 Definition digest (l : list N) : N :=
   fold_left (fun h x => ((h * 1000003 + x + 1) mod 2305843009213693951)%N) l 0%N.
+
+(* compact string literals in generated cases files: U8 "..." decodes the UTF-8 bytes of a Coq
+   string literal into code points (evaluated by vm_compute; invalid sequences cannot occur since
+   the harness writes valid UTF-8) *)
+Fixpoint bytes_of (s : String.string) : list N :=
+  match s with String.EmptyString => [] | String.String a t => Ascii.N_of_ascii a :: bytes_of t end.
+Fixpoint utf8_dec (fuel : nat) (b : list N) : list N :=
+  match fuel with
+  | O => []
+  | S f =>
+    match b with
+    | [] => []
+    | x :: r =>
+      if (x <? 128)%N then x :: utf8_dec f r
+      else if (x <? 224)%N then
+        match r with
+        | y :: r' => ((x - 192) * 64 + (y - 128))%N :: utf8_dec f r'
+        | _ => []
+        end
+      else if (x <? 240)%N then
+        match r with
+        | y :: z :: r' => ((x - 224) * 4096 + (y - 128) * 64 + (z - 128))%N :: utf8_dec f r'
+        | _ => []
+        end
+      else
+        match r with
+        | y :: z :: w :: r' =>
+            ((x - 240) * 262144 + (y - 128) * 4096 + (z - 128) * 64 + (w - 128))%N :: utf8_dec f r'
+        | _ => []
+        end
+    end
+  end.
+Definition U8 (s : String.string) : list N := let b := bytes_of s in utf8_dec (List.length b) b.
